@@ -53,13 +53,13 @@ function normalizeChar(c: string) {
     return _get(U3165, '\u3165')
   } else if (c >= '\uA960' && c <= '\uA97C') {
     return _get(UA960, '\uA960')
-  } else if (c >= '\uAC00' && c <= '\uD7AF') {
+  } else if (c >= '\uAC00' && c <= '\uD7A3') {
     return _get(U1100, '\uAC00', 588)
   } else if (c >= '\uD7B0' && c <= '\uD7C6') {
     return ''
   } else if (c >= '\uD7CB' && c <= '\uD7FB') {
     return ''
-  } else if (c >= '\uFFA0' && c <= '\uFFBE') {
+  } else if (c >= '\uFFA1' && c <= '\uFFBE') {
     return _get(JAMO, '\uFFA1')
   } else if ('ￂￃￄￅￆￇￊￋￌￍￎￏￒￓￔￕￖￗￚￛￜ'.indexOf(c) >= 0) {
     return ''
